@@ -204,6 +204,13 @@ func (e fixEvaluator) atLevel(level int, ct *rlwe.Ciphertext) {
 	e.r.AtLevel(level).Neg(ct.Value[0], ct.Value[0])
 }
 
+// LEVELIDX control: the ring is cut at the input's level, the prime is picked with the output's
+func (e fixEvaluator) DropScale(op0, opOut *rlwe.Ciphertext) {
+	ringQ := e.r.AtLevel(op0.Level())
+	ringQ.DivRoundByLastModulusNTT(op0.Value[0], opOut.Value[1], opOut.Value[0])
+	opOut.Scale = op0.Scale.Div(rlwe.NewScale(ringQ.SubRings[opOut.Level()].Modulus))
+}
+
 // DEGLOOP control: the last component is never negated
 func (e fixEvaluator) NegHigh(op0, opOut *rlwe.Ciphertext) {
 	for i := 1; i < op0.Degree(); i++ {
